@@ -5,6 +5,7 @@ pub mod c02;
 pub mod c04;
 pub mod c05;
 pub mod c06;
+pub mod c07;
 pub mod c09;
 pub mod c03;
 pub mod c08;
@@ -30,6 +31,7 @@ pub fn run(id: &str, ctx: &mut Ctx) -> bool {
         "C13" => c13::run(ctx),
         "C09" => c09::run(ctx),
         "C03" => c03::run(ctx),
+        "C07" => c07::run(ctx),
         "C08" => c08::run(ctx),
         "C10" => c10::run(ctx),
         "C11" => c11::run(ctx),
